@@ -90,10 +90,38 @@ def attribute(prop, scen, rej):
     return out
 
 
+def run_apalache(m, work):
+    """discharges inductive-invariant obligations with Apalache (symbolic, unbounded in the number of steps)"""
+    import os
+    import shutil
+    import subprocess
+    t0 = time.time()
+    d = os.path.join(work, 'apalache_%d' % os.getpid())
+    os.makedirs(d, exist_ok=True)
+    src = os.path.join(core.SPEC, m['spec'])
+    shutil.copyfile(src, os.path.join(d, os.path.basename(src)))
+    n = 0
+    for (init, inv, length) in m['obligations']:
+        cmd = ['apalache-mc', 'check', '--init=' + init, '--inv=' + inv, '--length=%d' % length, '--out-dir=' + os.path.join(d, 'out'),
+               os.path.basename(src)]
+        try:
+            r = subprocess.run(cmd, cwd=d, capture_output=True, text=True, timeout=600)
+        except subprocess.TimeoutExpired:
+            raise Inconclusive('apalache timeout on %s %s' % (m['name'], inv))
+        if 'EXITCODE: OK' not in r.stdout:
+            raise Inconclusive('apalache obligation %s/%s of %s failed (machinery failure, not a verdict):\n%s' % (init, inv, m['name'], r.stdout[-1500:]))
+        n += 1
+    shutil.rmtree(d, ignore_errors=True)
+    return dict(name=m['name'], spec=m['spec'], constants=m.get('constants', ''), distinct=n, generated=n,
+                wall_s=round(time.time() - t0, 1), exhaustive=True, obligations=n, tool='apalache')
+
+
 def run_model(m, tier, work):
     t0 = time.time()
     if m.get('tiers') and tier not in m['tiers']:
         return None
+    if m.get('tool') == 'apalache':
+        return run_apalache(m, work)
     cfg = m['cfg'][tier] if isinstance(m['cfg'], dict) else m['cfg']
     extra = list(m.get('extra', []))
     rc, out = core.tlc(m['spec'], cfg, work, workers=m.get('workers', 8), extra=extra,
@@ -499,3 +527,12 @@ PROPS['C17'] = dict(
         'a transport honours the context passed to Read/Write (the harness links do)',
         'the census counts goroutines of the scenario with a goat frame; raw peers have none'],
     models=x_proxy.MODELS_C17)
+
+
+# ---- unbounded id discipline (Apalache inductive invariant) ----------------------------------
+A_MUXIDS = dict(name='MuxIds inductive invariant (Apalache): Init => IndInv, IndInv /\\ Next => IndInv\', and the id handed to a new call is fresh',
+                tool='apalache', spec='apalache/MuxIds.tla',
+                obligations=[('Init', 'IndInv', 0), ('IndInit', 'IndInv', 1), ('IndInit', 'Fresh', 1)],
+                constants='symbolic: arbitrary counter, registries of up to 6 arbitrary ids (Gen(6)); any number of calls')
+PROPS['C05']['models'] = list(PROPS['C05'].get('models', [])) + [A_MUXIDS]
+PROPS['C14']['models'] = list(PROPS['C14'].get('models', [])) + [A_MUXIDS]
